@@ -182,7 +182,7 @@ partial def eval (env : Env) (g : G) (c : Nat) (e : E) : G × Out :=
   | .iset a i v =>
     one g a fun g va => one g i fun g vi => one g v fun g vv =>
       (match itemSet g va vi vv with
-       | (g', .ok _) => (g', .val none)
+       | (g', .ok _) => (g', .val (some vv))
        | (g', r) => (g', failOf r))
   | .aset obj attr v =>
     -- value first, then the object is loaded
@@ -190,7 +190,7 @@ partial def eval (env : Env) (g : G) (c : Nat) (e : E) : G × Out :=
       (match loadName (subRun env) g c obj false with
        | (g', .ok (vo, _)) =>
          (match attrSet g' vo attr vv with
-          | (g2, true) => (g2, .val none)
+          | (g2, true) => (g2, .val (some vv))
           | (g2, false) => err g2 "不支持的类型：当前变量无法用.来设置属性")
        | (g', r) => (g', failOf r))
   | .sset a lo hi v =>
@@ -201,7 +201,7 @@ partial def eval (env : Env) (g : G) (c : Nat) (e : E) : G × Out :=
           | (g, .ok vhi) =>
             one g v fun g vv =>
               (match setSlice g va vlo vhi vv with
-               | (g', .ok _) => (g', .val none)
+               | (g', .ok _) => (g', .val (some vv))
                | (g', r) => (g', failOf r))
           | (g, .error o) => (g, o))
        | (g, .error o) => (g, o))
